@@ -82,6 +82,8 @@ var whitelist = []FuncSpec{
 	{"pkg/provider", "Response", "makeAssertionResponse"},
 	{"pkg/provider", "Response", "makeFailedResponse"},
 	{"pkg/provider", "Response", "makeSuccessfulResponse"},
+	{"pkg/provider", "", "createSignature"},
+	{"pkg/provider", "IdentityProvider", "loginResponse"},
 }
 
 // extraFields are struct fields the hand-written handler models read although no translated function does.
@@ -138,6 +140,9 @@ type fn struct {
 	failed   string
 	out      string // emitted lean text
 	usesOra  bool
+	// inout: pointer parameters the body assigns through (or hands to a callee that does); their final values are
+	// returned after the Go results and written back by the caller
+	inout []*param
 }
 
 type param struct {
@@ -466,6 +471,8 @@ type tctx struct {
 	nret    int
 	// newIDSites counts the NewID() call sites translated so far in this function
 	newIDSites int
+	// wbOK: the call being translated sits in a statement position that writes in-out values back
+	wbOK bool
 }
 
 type frameField struct {
@@ -562,13 +569,18 @@ func (w *world) translate(f *fn) {
 		rts = append(rts, w.leanType(t))
 	}
 	c.nret = len(rts)
-	switch len(rts) {
+	w.scanInout(f)
+	all := append([]string{}, rts...)
+	for _, p := range f.inout {
+		all = append(all, p.leanTy)
+	}
+	switch len(all) {
 	case 0:
 		c.retTy = "Unit"
 	case 1:
-		c.retTy = rts[0]
+		c.retTy = all[0]
 	default:
-		c.retTy = strings.Join(rts, " × ")
+		c.retTy = strings.Join(all, " × ")
 	}
 	// named results become locals
 	if f.inner == nil {
@@ -581,6 +593,10 @@ func (w *world) translate(f *fn) {
 		}
 	}
 	body := c.stmts(f.body.List, "  ")
+	if len(f.inout) > 0 && len(rts) == 0 {
+		// falling off the end returns the final values of the in-out parameters
+		body = fmt.Sprintf("  Ctl.seq\n%s\n    fun s =>\n    .ret %s", body, c.retTuple(nil))
+	}
 	var sb strings.Builder
 	fmt.Fprintf(&sb, "namespace %s\n", f.lean)
 	fmt.Fprintf(&sb, "structure Frame where\n")
@@ -599,6 +615,18 @@ func (w *world) translate(f *fn) {
 	fmt.Fprintf(&sb, "/-- translated from %s -/\ndef %s (o : Ora) %s : Res (%s) :=\n  (%s.body o { %s }).toRes %s\n",
 		f.spec.key(), f.lean, strings.Join(sigParams, " "), c.retTy, f.lean, strings.Join(initFields, ", "), dflt)
 	f.out = sb.String()
+}
+
+// retTuple: the value a `return` hands back - the Go results followed by the current values of the in-out parameters
+func (c *tctx) retTuple(es []string) string {
+	all := append([]string{}, es...)
+	for _, p := range c.f.inout {
+		all = append(all, "s."+c.locals[p.obj])
+	}
+	if len(all) == 0 {
+		return "()"
+	}
+	return "(" + strings.Join(all, ", ") + ")"
 }
 
 func guardWrap(g []string, ind, body string) string {
@@ -625,11 +653,17 @@ func (c *tctx) stmts(list []ast.Stmt, ind string) string {
 			for i := 0; i < sig.Results().Len(); i++ {
 				es = append(es, "s."+c.locals[sig.Results().At(i)])
 			}
-			return ind + ".ret (" + strings.Join(es, ", ") + ")"
+			return ind + ".ret " + c.retTuple(es)
 		}
 		if len(s.Results) == 1 && c.nret > 1 {
 			// return f(...) with tuple result
 			v := c.expr(s.Results[0])
+			if len(c.f.inout) > 0 {
+				if c.nret != 2 {
+					panic("return of a call with more than two results from a function with in-out parameters")
+				}
+				return guardWrap(v.g, ind, fmt.Sprintf("%slet t_ := %s;\n%s.ret %s", ind, v.e, ind, c.retTuple([]string{"t_.1", "t_.2"})))
+			}
 			return guardWrap(v.g, ind, ind+".ret "+v.e)
 		}
 		var g []string
@@ -640,11 +674,7 @@ func (c *tctx) stmts(list []ast.Stmt, ind string) string {
 			g = append(g, v.g...)
 			es = append(es, v.e)
 		}
-		e := "(" + strings.Join(es, ", ") + ")"
-		if len(es) == 0 {
-			e = "()"
-		}
-		return guardWrap(g, ind, ind+".ret "+e)
+		return guardWrap(g, ind, ind+".ret "+c.retTuple(es))
 	case *ast.BranchStmt:
 		switch s.Tok.String() {
 		case "break":
@@ -658,6 +688,9 @@ func (c *tctx) stmts(list []ast.Stmt, ind string) string {
 	case *ast.ExprStmt:
 		if c.skippableCall(s.X) {
 			return c.stmts(rest, ind)
+		}
+		if v, nres, wb, ok := c.writeBackCall(s.X); ok {
+			return c.assignWB(nil, nil, v, nres, wb, rest, ind)
 		}
 		panic("unsupported expression statement: " + c.src(s.X))
 	case *ast.DeferStmt:
@@ -835,6 +868,194 @@ func (c *tctx) skippableCall(e ast.Expr) bool {
 }
 
 
+
+// outParamMethods: interface methods that fill the struct behind one of their pointer arguments (argument index among
+// the non-context parameters).  The oracle returns the filled value after its Go results.
+var outParamMethods = map[string]int{"SetUserinfoWithUserID": 1, "SetUserinfoWithLoginName": 0}
+
+// funcOracles: untranslated package-level functions that may be called as oracles (typed by their Go signature)
+var funcOracles = map[string]bool{"createRedirectSignature": true, "createPostSignature": true}
+
+// scanInout finds the pointer parameters of f that the body assigns through, directly or by passing them to a
+// translated callee that does (callees are translated first: whitelist order).
+func (w *world) scanInout(f *fn) {
+	if f.body == nil {
+		return
+	}
+	info := f.pkg.TypesInfo
+	isParam := map[types.Object]*param{}
+	for _, p := range f.params {
+		if p.kind == "value" && isPointer(p.typ) && namedStruct(p.typ) != nil {
+			isParam[p.obj] = p
+		}
+	}
+	marked := map[*param]bool{}
+	rootIdent := func(e ast.Expr) (*ast.Ident, int) {
+		d := 0
+		for {
+			switch x := e.(type) {
+			case *ast.SelectorExpr:
+				e = x.X
+				d++
+				continue
+			case *ast.IndexExpr:
+				e = x.X
+				d++
+				continue
+			case *ast.StarExpr:
+				e = x.X
+				d++
+				continue
+			case *ast.ParenExpr:
+				e = x.X
+				continue
+			}
+			break
+		}
+		id, _ := e.(*ast.Ident)
+		return id, d
+	}
+	ast.Inspect(f.body, func(n ast.Node) bool {
+		switch x := n.(type) {
+		case *ast.AssignStmt:
+			for _, l := range x.Lhs {
+				if id, d := rootIdent(l); id != nil && d > 0 {
+					if p := isParam[info.Uses[id]]; p != nil {
+						marked[p] = true
+					}
+				}
+			}
+		case *ast.CallExpr:
+			var callee *fn
+			switch fun := x.Fun.(type) {
+			case *ast.Ident:
+				if o := info.Uses[fun]; o != nil {
+					callee = w.byObj[o]
+				}
+			case *ast.SelectorExpr:
+				if o := info.Uses[fun.Sel]; o != nil {
+					callee = w.byObj[o]
+				}
+			}
+			if callee != nil && len(callee.inout) > 0 {
+				ai := 0
+				for _, cp := range callee.params {
+					if sig := callee.obj.Type().(*types.Signature); sig.Recv() != nil && cp.obj == sig.Recv() {
+						continue
+					}
+					if ai >= len(x.Args) {
+						break
+					}
+					a := x.Args[ai]
+					ai++
+					for _, io := range callee.inout {
+						if io == cp {
+							if id, ok := a.(*ast.Ident); ok {
+								if p := isParam[info.Uses[id]]; p != nil {
+									marked[p] = true
+								}
+							}
+						}
+					}
+				}
+			}
+		}
+		return true
+	})
+	for _, p := range f.params {
+		if marked[p] {
+			f.inout = append(f.inout, p)
+		}
+	}
+}
+
+// writeBackCall recognises a call whose value carries, after the Go results, the new values of local variables:
+// a translated callee with in-out pointer parameters, or an interface method that fills an argument.
+// It returns the tuple-valued expression, the number of Go results, and the frame fields to write back.
+func (c *tctx) writeBackCall(e ast.Expr) (v val, nres int, wb []string, ok bool) {
+	x, isCall := e.(*ast.CallExpr)
+	if !isCall {
+		return val{}, 0, nil, false
+	}
+	localOf := func(a ast.Expr) string {
+		id, isId := a.(*ast.Ident)
+		if !isId {
+			panic("in-out argument is not a plain variable: " + c.src(a))
+		}
+		n, has := c.locals[c.info.Uses[id]]
+		if !has {
+			panic("in-out argument is not a local variable: " + id.Name)
+		}
+		return n
+	}
+	if callee := c.calleeFn(x.Fun); callee != nil && len(callee.inout) > 0 {
+		ai := 0
+		for _, cp := range callee.params {
+			if sig := callee.obj.Type().(*types.Signature); sig.Recv() != nil && cp.obj == sig.Recv() {
+				continue
+			}
+			if ai >= len(x.Args) {
+				break
+			}
+			a := x.Args[ai]
+			ai++
+			for _, io := range callee.inout {
+				if io == cp {
+					wb = append(wb, localOf(a))
+				}
+			}
+		}
+		return c.callExpr(x, true), len(callee.resTypes), wb, true
+	}
+	if sel, isSel := x.Fun.(*ast.SelectorExpr); isSel {
+		if idx, has := outParamMethods[sel.Sel.Name]; has {
+			if s := c.info.Selections[sel]; s != nil && s.Kind() == types.MethodVal {
+				sig := s.Obj().Type().(*types.Signature)
+				k := -1
+				for i := 0; i < sig.Params().Len(); i++ {
+					if isIgnoredType(sig.Params().At(i).Type()) {
+						continue
+					}
+					k++
+					if k == idx {
+						wb = append(wb, localOf(x.Args[i]))
+					}
+				}
+				return c.callExpr(x, true), sig.Results().Len(), wb, true
+			}
+		}
+	}
+	return val{}, 0, nil, false
+}
+
+// callExpr is call(); with wbOK the caller handles the write-back of in-out values
+func (c *tctx) callExpr(x *ast.CallExpr, wbOK bool) val {
+	old := c.wbOK
+	c.wbOK = wbOK
+	defer func() { c.wbOK = old }()
+	return c.call(x)
+}
+
+// assignWB emits `lhs…, wb… := call` for a call recognised by writeBackCall
+func (c *tctx) assignWB(lhs []ast.Expr, lhsName func(ast.Expr, types.Type) string, v val, nres int, wb []string, rest []ast.Stmt, ind string) string {
+	k := nres + len(wb)
+	var lets []string
+	lets = append(lets, fmt.Sprintf("%slet t_ := %s;", ind, v.e))
+	for i, l := range lhs {
+		if i >= nres {
+			break
+		}
+		n := lhsName(l, nil)
+		if n != "" {
+			lets = append(lets, fmt.Sprintf("%slet s := { s with %s := %s };", ind, n, "t_"+tupleProj(i, k)))
+		}
+	}
+	for j, n := range wb {
+		lets = append(lets, fmt.Sprintf("%slet s := { s with %s := %s };", ind, n, "t_"+tupleProj(nres+j, k)))
+	}
+	return guardWrap(v.g, ind, strings.Join(lets, "\n")+"\n"+c.stmts(rest, ind))
+}
+
 // pathUpdate translates an assignment through an access path rooted at a local variable into a functional update:
 // it returns the frame field of the root, the new value of that field, and the panic guards (nil pointer on the
 // path, index out of range).
@@ -965,6 +1186,11 @@ func (c *tctx) assign(s *ast.AssignStmt, rest []ast.Stmt, ind string) string {
 	}
 	if tok != ":=" && tok != "=" {
 		panic("unsupported assignment operator " + tok)
+	}
+	if len(s.Rhs) == 1 {
+		if v, nres, wb, ok := c.writeBackCall(s.Rhs[0]); ok {
+			return c.assignWB(s.Lhs, lhsName, v, nres, wb, rest, ind)
+		}
 	}
 	if tok == "=" && len(s.Lhs) == 1 && len(s.Rhs) == 1 {
 		if _, isIdent := s.Lhs[0].(*ast.Ident); !isIdent {
@@ -1504,6 +1730,24 @@ func (c *tctx) call(x *ast.CallExpr) val {
 			c.newIDSites++
 			return val{e: fmt.Sprintf("(%s %s %d)", o, leanStr(c.f.lean), k)}
 		}
+		if f, ok := obj.(*types.Func); ok && funcOracles[f.Name()] && f.Pkg() != nil && strings.Contains(f.Pkg().Path(), "zitadel/saml") {
+			// an untranslated function of the library used as an oracle, typed by its Go signature
+			sig := f.Type().(*types.Signature)
+			es, g := c.args(x)
+			var ats, rts []string
+			for i := 0; i < sig.Params().Len(); i++ {
+				ats = append(ats, c.w.leanType(sig.Params().At(i).Type()))
+			}
+			for i := 0; i < sig.Results().Len(); i++ {
+				rts = append(rts, c.w.leanType(sig.Results().At(i).Type()))
+			}
+			rt := "Unit"
+			if len(rts) > 0 {
+				rt = strings.Join(rts, " × ")
+			}
+			o := c.oracle("f_"+f.Name(), strings.Join(append(ats, rt), " → "), "function "+f.FullName()+" (not translated)")
+			return val{e: fmt.Sprintf("(%s %s)", o, strings.Join(es, " ")), g: g}
+		}
 		panic("unsupported call " + c.src(x))
 	case *ast.SelectorExpr:
 		// package function?
@@ -1560,6 +1804,9 @@ func (c *tctx) calleeFn(e ast.Expr) *fn {
 }
 
 func (c *tctx) callTranslated(callee *fn, x *ast.CallExpr) val {
+	if len(callee.inout) > 0 && !c.wbOK {
+		panic("call of " + callee.lean + " (in-out parameters) in expression position")
+	}
 	var es, g []string
 	ai := 0
 	for _, p := range callee.params {
@@ -1730,9 +1977,21 @@ func (c *tctx) methodCall(fun *ast.SelectorExpr, x *ast.CallExpr) val {
 			ats = append(ats, c.w.leanType(recvT))
 			all = append(all, recv.e)
 		}
+		outIdx, hasOut := outParamMethods[name]
+		var outTy string
+		k := -1
 		for i := 0; i < sig.Params().Len(); i++ {
 			pt := sig.Params().At(i).Type()
 			if isIgnoredType(pt) {
+				continue
+			}
+			k++
+			if hasOut && k == outIdx {
+				// the callee fills this argument: its value is part of the answer, not of the question
+				if !c.wbOK {
+					panic("method " + name + " (fills an argument) in expression position")
+				}
+				outTy = c.w.leanType(c.info.TypeOf(x.Args[i]))
 				continue
 			}
 			ats = append(ats, c.w.leanType(pt))
@@ -1741,6 +2000,9 @@ func (c *tctx) methodCall(fun *ast.SelectorExpr, x *ast.CallExpr) val {
 		var rts []string
 		for i := 0; i < sig.Results().Len(); i++ {
 			rts = append(rts, c.w.leanType(sig.Results().At(i).Type()))
+		}
+		if outTy != "" {
+			rts = append(rts, outTy)
 		}
 		rt := "Unit"
 		if len(rts) > 0 {
